@@ -120,8 +120,9 @@ pub fn target_split_bytes(total_bytes: u64, nodes: usize) -> u64 {
 /// data-cost.
 pub fn enumerate_parquet(table: &str, files: &[PathBuf], nodes: usize) -> Result<SplitSet> {
     // Pass 1: row-group inventory, in canonical file order.
+    let root = common_root(files);
     let mut ordered: Vec<&PathBuf> = files.iter().collect();
-    ordered.sort_by_key(|p| file_key(p));
+    ordered.sort_by_key(|p| file_key(p, &root));
 
     struct RowGroup<'a> {
         path: &'a PathBuf,
@@ -152,7 +153,7 @@ pub fn enumerate_parquet(table: &str, files: &[PathBuf], nodes: usize) -> Result
             total_rows += rows;
             inventory.push(RowGroup {
                 path,
-                file: file_key(path),
+                file: file_key(path, &root),
                 index,
                 rows,
                 bytes,
@@ -215,12 +216,44 @@ pub fn enumerate_parquet(table: &str, files: &[PathBuf], nodes: usize) -> Result
     })
 }
 
-/// The canonical name of a file: its final path component. Two nodes that mount
-/// the same dataset at `/data` and `/mnt/tpch` must agree, and they do.
-fn file_key(path: &Path) -> String {
-    path.file_name()
-        .map(|n| n.to_string_lossy().into_owned())
-        .unwrap_or_else(|| path.to_string_lossy().into_owned())
+/// The canonical name of a file: its path relative to the deepest directory
+/// that contains every file of the table. For a table whose files sit in one
+/// directory that is the bare file name, so two nodes that mount the same
+/// dataset at `/data` and `/mnt/tpch` agree. For a partitioned layout (Iceberg
+/// writes the same `part-0.parquet` name under every partition directory) the
+/// partition directory is part of the name, so two different files never share
+/// a key and the canonical order does not depend on the caller's file order.
+fn file_key(path: &Path, root: &Path) -> String {
+    let name = || {
+        path.file_name()
+            .map(|n| n.to_string_lossy().into_owned())
+            .unwrap_or_else(|| path.to_string_lossy().into_owned())
+    };
+    match path.strip_prefix(root) {
+        Ok(rel) if rel.components().count() > 0 => rel
+            .components()
+            .map(|c| c.as_os_str().to_string_lossy().into_owned())
+            .collect::<Vec<_>>()
+            .join("/"),
+        _ => name(),
+    }
+}
+
+/// Deepest directory containing every file of the table.
+fn common_root(files: &[PathBuf]) -> PathBuf {
+    let mut parents = files.iter().filter_map(|p| p.parent());
+    let Some(first) = parents.next() else {
+        return PathBuf::new();
+    };
+    let mut root = first.to_path_buf();
+    for p in parents {
+        while !p.starts_with(&root) {
+            if !root.pop() {
+                return PathBuf::new();
+            }
+        }
+    }
+    root
 }
 
 impl SplitSet {
